@@ -210,7 +210,12 @@ func (p *Process) Fork(flags int) *Fork {
 
 	switch {
 	case flags&F_CREATE_STDOUT != 0:
-		fork.Stdout = streams.NewStdin()
+		// A captured stream is only read once the block has finished, so it
+		// cannot have a back-pressure limit: the block would wait forever for
+		// a reader as soon as it had written more than the limit (1 MiB).
+		stdout := streams.NewStdin()
+		stdout.SetMaxBufferSize(0)
+		fork.Stdout = stdout
 	case flags&F_NO_STDOUT != 0:
 		if debug.Enabled {
 			// This is TermErr despite being a Stdout stream because it is a debug
@@ -225,7 +230,9 @@ func (p *Process) Fork(flags int) *Fork {
 
 	switch {
 	case flags&F_CREATE_STDERR != 0:
-		fork.Stderr = streams.NewStdin()
+		stderr := streams.NewStdin()
+		stderr.SetMaxBufferSize(0) // see stdout above
+		fork.Stderr = stderr
 	case flags&F_NO_STDERR != 0:
 		if debug.Enabled {
 			// This is TermErr despite being a Stdout stream because it is a debug
